@@ -19,6 +19,10 @@ func Finalize() {
 	for _, d := range Drivers() {
 		names = append(names, d.Name())
 	}
+	required := []string{"first_installation_succeeded", "reinstall_attempt"}
+	for _, n := range names {
+		required = append(required, "reinstall_attempt:"+n) // every router with a driver must be exercised in every batch
+	}
 	kernel.Register(&kernel.Check{
 		ID: "C19", Level: "exploration", Engine: "E1 cluster + light-client drivers",
 		Rule: "per run one router driver (" + strings.Join(names, ", ") + "; Harmony cannot be built here) simulates a side chain; history = first trust-root installation, then re-installation attempts " +
@@ -27,8 +31,8 @@ func Finalize() {
 		Real:        []string{"header_sync entrance + the router's SyncGenesisHeader/SyncBlockHeader", "side_chain_manager registry", "ledgerstore execute/commit", "native runtime"},
 		Stub:        []string{"side chains: simulated generators producing validly signed/linked trust roots and headers", "VBFT server / p2p as in E1"},
 		Assumptions: []string{"routers covered are exactly those with a driver; each driver's first installation must succeed (else the run is discarded and counted as a probe)"},
-		QuickRuns:   64, ThoroughRuns: 3000, QuickCap: 120, ThoroughCap: 900,
-		RequiredProbes: []string{"first_installation_succeeded", "reinstall_attempt"},
+		QuickRuns:   8 * len(drivers), ThoroughRuns: 300 * len(drivers), QuickCap: 120, ThoroughCap: 900,
+		RequiredProbes: required,
 		Generate: func(rng *kernel.RNG, idx int, tier string) *kernel.Plan {
 			n := 4 + rng.Intn(3)
 			steps := []kernel.Step{{Op: "genesis", A: []int64{0}}}
@@ -45,7 +49,7 @@ func Finalize() {
 			if rng.Chance(0.15) { // a history that starts with a different genesis than the "real" one
 				steps[0].A[0] = 1
 			}
-			return &kernel.Plan{Cfg: map[string]int64{"driver": int64(idx % len(drivers)), "n": int64(n), "net": int64([]int{1, 2, 77}[rng.Intn(3)])}, Steps: steps}
+			return &kernel.Plan{Cfg: map[string]int64{"driver": int64(idx % len(drivers)), "n": int64(n), "net": int64([]int{77, 77, 77, 77, 1, 2}[rng.Intn(6)])}, Steps: steps}
 		},
 		Execute: func(run *kernel.Run) {
 			ds := Drivers()
